@@ -642,6 +642,11 @@ func (ab *rulesPair) genUniqRuleNames() {
 	for _, ru := range ab.a.rules {
 		aNames[ru.Name] = true
 	}
+	// New name must also be different from names of other rules in b.
+	bNames := make(map[string]bool)
+	for _, ru := range ab.b.rules {
+		bNames[ru.Name] = true
+	}
 	for _, ru := range ab.b.rules {
 		name := ru.Name
 		if !aNames[name] {
@@ -649,8 +654,9 @@ func (ab *rulesPair) genUniqRuleNames() {
 		}
 		for i := 1; ; i++ {
 			new := fmt.Sprintf("%s-%d", name, i)
-			if !aNames[new] {
+			if !aNames[new] && !bNames[new] {
 				ru.Name = new
+				bNames[new] = true
 				break
 			}
 		}
@@ -660,6 +666,11 @@ func (ab *rulesPair) genUniqRuleNames() {
 // Rename groups in b such that names are unique in respect to groups in a.
 func (ab *rulesPair) genUniqGroupNames() {
 	aGroups := ab.a.groups
+	// New name must also be different from names of other groups in b.
+	bNames := make(map[string]bool)
+	for _, g := range ab.b.vsys.AddressGroups {
+		bNames[g.Name] = true
+	}
 	for _, g := range ab.b.vsys.AddressGroups {
 		name := g.Name
 		if aGroups[name] == nil {
@@ -667,8 +678,9 @@ func (ab *rulesPair) genUniqGroupNames() {
 		}
 		for i := 1; ; i++ {
 			new := fmt.Sprintf("%s-%d", name, i)
-			if aGroups[new] == nil {
+			if aGroups[new] == nil && !bNames[new] {
 				g.Name = new
+				bNames[new] = true
 				break
 			}
 		}
